@@ -94,6 +94,8 @@ LOG = MO.MeiosisLog()
 def gen_case(g):
     name, npar, prefix = PROTOS[int(g.integers(len(PROTOS)))]
     ntaxa = int(g.integers(1, 10)); nvrnt = int(g.integers(1, 49)) if g.random() < 0.8 else int(g.integers(1, 4))
+    if g.random() < 0.004:
+        nvrnt = int(g.choice([4097, 8193, 9000]))          # beyond internal block sizes of a vectorised meiosis
     nchr = int(g.integers(1, 5))
     codes = ["unique", "unique", "unique", "01", "int8"][int(g.integers(5))]
     xomode = ["zero", "half", "mixed", "mixed", "random", "haldane"][int(g.integers(6))]
